@@ -180,8 +180,8 @@ func init() {
 		Jobs: func(tier string) []JobDef {
 			mk := func(nsym, nt int) JobDef {
 				return JobDef{Name: fmt.Sprintf("templates-s%d-t%d", nsym, nt), Pkg: "github.com/google/mtail/internal/runtime/compiler", Dir: "internal/runtime/compiler",
-					Harness: []string{"compiler/c03.go"}, Entry: "HarnessC03", Params: p("nsym", nsym, "ntemplates", nt),
-					Bound: fmt.Sprintf("the first %d of eleven program templates with %d adjacent byte(s) at an arbitrary position replaced by arbitrary bytes", nt, nsym)}
+					Harness: []string{"compiler/c03.go"}, Entry: "HarnessC03", Params: p("nsym", nsym, "ntemplates", nt, "concretize-floats", 1),
+					Bound: fmt.Sprintf("the first %d of eleven program templates with %d adjacent byte(s) at an arbitrary position replaced by arbitrary bytes (two bytes: arbitrary ASCII bytes)", nt, nsym)}
 			}
 			if tier == "thorough" {
 				return []JobDef{mk(1, 11), mk(2, 4)}
@@ -189,7 +189,20 @@ func init() {
 			return []JobDef{mk(1, 11)}
 		},
 		Assumptions: baseAssumptions,
-		Outside: []string{"arbitrary source texts (only one- and two-byte perturbations of eleven templates)", "termination in bounded time beyond the engine's step budget"}})
+		Outside: []string{"arbitrary source texts (only one- and two-byte perturbations of eleven templates)", "nondeterminism that comes from Go's randomised map iteration (the engine's maps iterate in insertion order, so two compilations in one path see the same order; natively the sampled paths are compared too, but one run each)", "termination in bounded time beyond the engine's step budget"}})
+}
+
+// ---- C23 (reduced): what mfmt does, on the C03 templates ----
+
+func init() {
+	register(&CheckDef{ID: "C23", Level: "model_checking", Only: []string{"C23."},
+		Jobs: func(tier string) []JobDef {
+			return []JobDef{{Name: "templates-s1", Pkg: "github.com/google/mtail/internal/runtime/compiler", Dir: "internal/runtime/compiler",
+				Harness: []string{"compiler/c03.go", "compiler/c23.go"}, Entry: "HarnessC23", Params: p("nsym", 1, "ntemplates", 11, "concretize-floats", 1),
+				Bound: "the eleven program templates of C03 with one byte at an arbitrary position replaced by an arbitrary byte; every perturbed program the checker accepts"}}
+		},
+		Assumptions: baseAssumptions,
+		Outside: []string{"programs other than one-byte perturbations of the eleven templates", "comments (the formatter drops them) and layout"}})
 }
 
 // ---- C19: a one-shot run of tailer + runtime ----
